@@ -222,6 +222,25 @@ SPECS["C10"] = {
                  SW("niche", type="key", label="KeyExpTree::new with a key type that has no all-zero value"), SW("niche", type="val", label="KeyExpTree::new with a value type that has no all-zero value"), SW("niche", type="list", label="KeyExpList with the same key type")],
 }
 
+# --- internal: one pass with every oracle on, used only by seeded/mutate.py to triage automatically generated
+# mutants quickly (never listed in MANIFEST.json; violations are filed under the pseudo id "ALL")
+EVERY_M = MAW + ",o_ref,o_handle,o_neigh,o_rb,o_arena,o_hstab,o_twin,o_pos"
+EVERY_K = KA + ",o_pred,o_get,o_export,o_cap,o_log,o_rb,o_arena,o_twin"
+EVERY_S = SA + ",o_query,o_purge,o_struct,o_twin"
+TRIAGE = {
+    "quick": [M("maptree", 5, EVERY_M), M("settree", 5, EVERY_M), M("maplist", 5, EVERY_M.replace(",o_hstab", "")), M("setlist", 5, EVERY_M.replace(",o_hstab", "")),
+              M("maptree", 4, EVERY_M, pay="track", hint=0), M("settree", 4, EVERY_M, pay="track", hint=1),
+              M("maptree", 10, "del,delh,clear,o_ref,o_handle,o_rb,o_arena,o_hstab", mode="shape", hint=9), M("settree", 10, "del,delh,clear,o_ref,o_handle,o_neigh,o_rb,o_arena,o_hstab", mode="shape"),
+              F("maptree", EVERY_M), F("settree", EVERY_M, hint=9), F("maplist", EVERY_M.replace(",o_hstab", ""), sizes="9,17,33,65"), F("setlist", EVERY_M.replace(",o_hstab", ""), sizes="9,17,33,65"),
+              K("ktree", 3, 3, EVERY_K), K("klist", 3, 3, EVERY_K), K("ktree", 4, 2, EVERY_K), K("ktree", 3, 3, EVERY_K, tbase=252), K("klist", 3, 3, EVERY_K, tbase=252), K("ktree", 3, 3, EVERY_K, audit=1),
+              K("ktree", 8, 0, "fleby,get,clear,o_pred,o_get,o_export,o_cap,o_log,o_rb,o_arena", mode="shape"), F("ktree", "fl,fle,fleby,get,o_pred,o_get,o_export,o_cap,o_log,o_rb,o_arena,o_twin"), F("klist", "fl,fle,fleby,get,o_pred,o_get,o_export,o_cap,o_log,o_rb,o_twin"),
+              S(0, 31, EVERY_S), S(-7, 92, EVERY_S), S(0, 16, EVERY_S), S(-(1 << 40), (1 << 40) + 5, EVERY_S, coord="i64"), FS(0, 31, "o_query,o_purge,o_struct,o_twin"), FS(-7, 92, "o_query,o_purge,o_struct,o_twin"),
+              SW("pairs", "o_place,sequential", emax=2, t=2), SW("dpairs", lo=-7, hi=92), SW("dpairs", lo=0, hi=128), SW("purge", "subranges"), SW("layout", lmax=700, all_coords=700), SW("export-sizes", kmax=12, as_gb=6),
+              M("maptree", 4, INJ_M, inject=1), M("settree", 4, INJ_M, inject=1), M("setlist", 4, INJ_M, inject=1), K("ktree", 3, 2, INJ_K, inject=1), K("klist", 3, 2, INJ_K, inject=1), S(0, 31, SA + ",o_query,o_struct", inject=1),
+              FS(0, 31, "o_query,o_struct", inject=1), F("ktree", "fl,fle,fleby,get,o_pred,o_rb,o_arena", sizes="9,16,17", inject=1)],
+    "thorough": [],
+}
+
 LEVEL = {p: "model_checking" for p in SPECS}
 
 RULES = {
